@@ -20,7 +20,7 @@ func (*C09) ID() string     { return "C09" }
 func (*C09) Level() string  { return "exploration" }
 func (*C09) Engine() string { return "CONC" }
 func (*C09) Rule() string {
-	return "a probe call (any format, any severity incl. an unregistered custom level, groups, errors, multi-line message, caller info from one fixed call site, explicit timestamp through WriteThru) is issued in the pristine world process and again after seeded histories of 0-200 other calls on other loggers, formats, severities and 1-4 caller tasks; the pool tape hands the probe a fresh formatting context, the most recently recycled one or an older one, and evicts at random; no configuration change in between; byte equality of the probe's payloads is demanded; every sixth episode is a twin episode: two loggers with the same name are made and configured by the same calls, one prints records between the configuration calls and the other stays silent, then both get the same probe and the bytes must be equal; distinct = hash of (probe, history); non-trivial = the probe was formatted in a recycled context after a non-empty history"
+	return "a probe call (any format, any severity incl. an unregistered custom level, groups, errors, multi-line message, caller info from one fixed call site, explicit timestamp through WriteThru) is issued in the pristine world process and again after seeded histories of 0-200 other calls on other loggers, formats, severities and 1-4 caller tasks; the pool tape hands the probe a fresh formatting context, the most recently recycled one or an older one, and evicts at random; no configuration change in between; byte equality of the probe's payloads is demanded; every sixth episode is a twin episode: two loggers with the same name are made and configured by the same calls, one prints records between the configuration calls and the other stays silent, then both get the same probe and the bytes must be equal; distinct = hash of (probe, history); non-trivial = the probe was formatted in a recycled context after a non-empty history; a third of the twin episodes also give each logger's caller a group value (twin groups changed by the same Add/SetValue calls, only one of them printed in between) which the probe carries"
 }
 
 func (*C09) Plan(tier string) orch.Plan {
